@@ -58,6 +58,18 @@ def run(ctx):
             inp = {'samples': samples, 'value': v, 'backend': bk}
             if p != a / b:
                 ctx.disagree('EmpiricalDistribution.pvalue', inp, [a, b], p)
+            # ToyCalculator.pvalues on two empirical distributions: CL_s+b and CL_b are exactly the two tail fractions (0 when the observed
+            # statistic lies above every toy), CL_s their ratio where CL_b > 0
+            if bk == 'numpy' and rng.random() < 0.4:
+                bs = [rng.choice(pool) if rng.random() < 0.6 else rng.uniform(0, 10) for _ in range(rng.randint(1, 40))]
+                bdist = calcmod.EmpiricalDistribution(tl.astensor(np.asarray(bs, dtype=np.float64)))
+                tc = calcmod.ToyCalculator.__new__(calcmod.ToyCalculator)
+                with np.errstate(all='ignore'):
+                    got3 = [float(np.asarray(x)) for x in calcmod.ToyCalculator.pvalues(tc, tl.astensor(np.asarray(v, dtype=np.float64)), dist, bdist)]
+                fb = sum(1 for x in bs if x >= v) / len(bs)
+                ctx.tally('toy_pvalues_clb', 'zero' if fb == 0 else 'positive')
+                if got3[0] != a / b or got3[1] != fb or (fb > 0 and got3[2] != (a / b) / fb):
+                    ctx.fail('C14/pvalues-tail-fractions', 'ToyCalculator.pvalues does not return the exact tail fractions of the two toy distributions', dict(inp, bkg_samples=bs), got3, [a / b, fb])
             want = sum(1 for x in samples if x >= v) / len(samples)
             if p != want or not (0.0 <= p <= 1.0):
                 ctx.fail('C14/tail-fraction', 'empirical p-value is not the fraction of samples >= value', inp, p, want)
